@@ -11,6 +11,7 @@ from __future__ import annotations
 
 import os
 import sys
+import time
 
 sys.path.insert(0, os.path.dirname(os.path.abspath(__file__)))
 import _hsmsmem as M  # noqa: E402
@@ -287,9 +288,17 @@ class Endpoint:
         return M.wait_until(lambda: len(self.got) >= expect and len(self.p._receive_buffer) == 0
                             and self.p._thread._dispatch_queue.qsize() == 0, timeout)
 
-    def close(self):
-        self.c.on_disconnecting({"source": self.c})
-        self.c.on_disconnected({"source": self.c})
+    def close(self, bound=3.0):
+        """bounded: an endpoint whose threads have stopped each other must not hang the harness (that it hangs is C09's subject)"""
+        import threading
+        done = threading.Event()
+
+        def closer():
+            self.c.on_disconnecting({"source": self.c})
+            self.c.on_disconnected({"source": self.c})
+            done.set()
+        threading.Thread(target=closer, daemon=True).start()
+        return done.wait(bound)
 
 
 SECSII_BODIES = [bytes.fromhex(x) for x in (
@@ -420,9 +429,39 @@ def threads_part_body(res, rng, big):
         segs = [stream[j:j + 1024] for j in range(0, len(stream), 1024)]
         check_delivery(res, ep, frames, segs, "1024-byte reads", {"kind": "seg", "frames": None, "seed_case": i, "cuts": "1024"})
         res.count(("1024", stream))
+    # long bursts reassembled back to back, every frame needing an answer written by the receiver thread (Linktest.req → Linktest.rsp, data
+    # while not selected → Reject.req): receiver thread (framing + sending) and dispatcher (handling + waiting for its send) must not stop
+    # each other however many frames one segment carries
+    if getattr(ep.p.connection_state.current, "name", "") == "CONNECTED_SELECTED":
+        ep.feed([M.ref_frame(1, 0xFFFF, 0, 0, False, 0, 3, b"")])            # Deselect.req: data messages are answered by Reject.req again
+        ep.settle(len(ep.got) + 1)
+    for nfr in ((200, 500, 1000, 2000) if big else (200, 500, 1000)):
+        frames = []
+        for k in range(nfr):
+            if k % 3 == 2:
+                vals = [rng.range(1, 2**32 - 1), 0, rng.range(1, 127), rng.range(1, 255), 1, 0, 0]
+                body = rng.choice(SECSII_BODIES)
+            else:
+                vals = [rng.range(1, 2**32 - 1), 0xFFFF, 0, 0, 0, 0, 5]
+                body = b""
+            frames.append((vals, body, M.ref_frame(*vals, body)))
+        stream = b"".join(f[2] for f in frames)
+        segs = [stream] if nfr != 500 else [stream[: len(stream) // 2 + 3], stream[len(stream) // 2 + 3:]]
+        before_sent = len(ep.c.sent)
+        t0 = time.monotonic()
+        okb = check_delivery(res, ep, frames, segs, f"burst of {nfr} answer-requiring frames", {"kind": "burst", "frames": None, "count": nfr, "segments": len(segs)})
+        res.count(("burst", nfr, stream[:64]), sample={"op": "burst in one segment, every frame answered", "frames": nfr, "bytes": len(stream),
+                                                         "seconds": round(time.monotonic() - t0, 2)} if nfr == 1000 else None)
+        if okb:
+            answered = M.wait_until(lambda: len(ep.c.sent) - before_sent >= nfr, 10.0)
+            if not answered:
+                res.violate("segmentation", f"burst of {nfr} frames: not every frame was answered within 10 s (receiver / dispatcher stopped?)",
+                            {"kind": "burst", "count": nfr}, nfr, len(ep.c.sent) - before_sent)
+        else:
+            break
+    ep.c.take()
     # nothing extra may show up afterwards (duplicates delivered late)
     total = len(ep.got)
-    import time
     time.sleep(0.1)
     if len(ep.got) != total or len(ep.p._receive_buffer) != 0:
         res.violate("segmentation", "blocks delivered after the stream was complete (duplicates) or bytes left in the buffer",
@@ -435,7 +474,6 @@ def handover_part(res, rng, big):
     """The connection thread is descheduled inside `_on_connection_data_received` (modelled by a `ByteQueue.append` that first waits until
     the receiver thread has had ample time to run, then appends).  Every frame is the LAST segment of its burst: nothing arrives after it,
     so it has to be delivered by the wake-up that belongs to it."""
-    import time
     ep = Endpoint()
     buf = ep.p._receive_buffer
     real_append = buf.append
@@ -485,7 +523,6 @@ class HookedCondition:
 def pop_race_part(res, rng, big):
     """The connection's thread appends the next segment at the moment the receiver thread is about to take the lock inside `ByteQueue.pop`
     for the last complete frame.  `pop(size)` has to hand out exactly that frame; the appended bytes stay for the next look."""
-    import time
     ep = Endpoint()
     buf = ep.p._receive_buffer
     real = buf._buffer_lock
